@@ -13,6 +13,8 @@ from __future__ import annotations
 
 import ast
 import itertools
+import os
+import re
 import typing as t
 
 from .facts import AnalysisError, ClassInfo, FuncInfo, Program, dotted
@@ -297,6 +299,51 @@ class _Chooser:
         return True
 
 
+_BASELINE: t.Optional[t.FrozenSet[str]] = None
+
+
+def _strip_at(q: str) -> str:
+    return re.sub(r"@\d+", "", q)
+
+
+def baseline_functions() -> t.FrozenSet[str]:
+    """qualified names of the functions of the tree the rules were written against (tools/mkbaseline.py)"""
+    global _BASELINE
+    if _BASELINE is None:
+        path = os.path.join(os.path.dirname(os.path.abspath(__file__)), "baseline_functions.txt")
+        try:
+            with open(path) as fh:
+                _BASELINE = frozenset(_strip_at(l.strip()) for l in fh if l.strip())
+        except OSError as exc:
+            raise AnalysisError(f"baseline function list missing: {exc}")
+    return _BASELINE
+
+
+def _immutable_literal(node) -> bool:
+    """tuple display whose elements are constants, dotted names (enum members) or such tuples"""
+    if isinstance(node, ast.Tuple):
+        return all(_immutable_literal(e) or isinstance(e, ast.Constant) or
+                   (isinstance(e, (ast.Attribute, ast.Name)) and dotted(e) is not None) for e in node.elts)
+    return False
+
+
+def _has_yield(fi: FuncInfo) -> bool:
+    v = getattr(fi, "_has_yield", None)
+    if v is None:
+        v = False
+        stack = list(fi.node.body)
+        while stack:
+            n = stack.pop()
+            if isinstance(n, (ast.Yield, ast.YieldFrom)):
+                v = True
+                break
+            if isinstance(n, (ast.FunctionDef, ast.AsyncFunctionDef, ast.Lambda, ast.ClassDef)):
+                continue
+            stack.extend(ast.iter_child_nodes(n))
+        fi._has_yield = v
+    return v
+
+
 class Policy:
     """what to inline, how far to unroll, which exceptions to fork on"""
 
@@ -306,6 +353,7 @@ class Policy:
     max_paths = 20000
     inline_properties = True
     inline_ctors = True
+    transparent_helpers = True
     fork_uncaught = False  # fork raise outcomes even when no enclosing handler exists
     load_raises = ("KeyError",)  # what a subscript load may raise
     snapshot_facts = False  # record the path facts / enclosing handlers on every call event
@@ -1424,6 +1472,11 @@ class Engine:
             node = g[3]
             if isinstance(node, ast.Constant):
                 return const(node.value)
+            if _immutable_literal(node) and g[2] not in mi.rebound:
+                # module level tuple of constants / enum members: its value, not its name
+                v = self._eval_in_module(node, mi)
+                if v[0] != "unknown":
+                    return v
             return ("attr", ("mod", g[1]), g[2])
         if g[0] == "classattr":
             em = enum_members(self.prog, g[1])
@@ -1544,6 +1597,20 @@ class Engine:
         except (_RaiseSignal, AnalysisError):
             return ("unknown", ("default", clsqual))
 
+    def _eval_in_module(self, node, mi):
+        fake = FuncInfo.__new__(FuncInfo)
+        fake.qual = mi.short + ".<module>"
+        fake.node = node
+        fake.module = mi
+        fake.cls = None
+        fake.name = "<module>"
+        fake.kind = "function"
+        fake.parent = None
+        try:
+            return self._eval(node, _State(), fake, 99, _Chooser())
+        except (_RaiseSignal, AnalysisError):
+            return ("unknown", ("module-const", mi.short))
+
     def classconst_value(self, tm):
         """('classconst', cls, name) -> evaluated term of the class level constant"""
         ci = self.prog.cls(tm[1])
@@ -1555,8 +1622,22 @@ class Engine:
         saved = dict(s.env)
         gens = []
         n0 = len(s.events)
-        for g in node.generators:
-            it = self._eval(g.iter, s, fi, depth, ch)
+        first_it = None
+        if len(node.generators) == 1 and not node.generators[0].is_async and not node.generators[0].ifs and kind != "dict":
+            # a comprehension over a display of known elements is the display of its results
+            g = node.generators[0]
+            first_it = self._eval(g.iter, s, fi, depth, ch)
+            elems = self._iter_elems(first_it)
+            if elems is not None and len(elems) <= 8:
+                out = []
+                for el in elems:
+                    self._assign(g.target, el, s, fi, depth, ch)
+                    out.append(self._eval(node.elt, s, fi, depth, ch))
+                s.env.clear()
+                s.env.update(saved)
+                return ({"list": "list", "set": "set", "gen": "tuple"}[kind], tuple(out))
+        for gi, g in enumerate(node.generators):
+            it = first_it if gi == 0 and first_it is not None else self._eval(g.iter, s, fi, depth, ch)
             el = ("elem", it, self.site(g.iter, fi), 0)
             self._assign(g.target, el, s, fi, depth, ch)
             conds = tuple(self._eval(c, s, fi, depth, ch) for c in g.ifs)
@@ -1641,6 +1722,13 @@ class Engine:
                 tv = self._decide(args[0], s)
                 if tv is not None:
                     return const(tv)
+            if name in ("any", "all") and len(args) == 1 and not kwargs and args[0][0] in ("tuple", "list") \
+                    and not any(x[0] == "starred" for x in args[0][1]):
+                if not args[0][1]:
+                    return const(name == "all")
+                if len(args[0][1]) == 1:
+                    return ("call", ("ext", "bool"), (args[0][1][0],), (), site)
+                return ("bool", "or" if name == "any" else "and", tuple(args[0][1]))
         e = self._event("call", node, fi, depth, s)
         e.fterm, e.args, e.kwargs = f, args, kwargs
         if f[0] == "attr":
@@ -1708,7 +1796,14 @@ class Engine:
             return False
         if self.is_listener_iface(callee.qual):
             return False
+        if self.is_unknown_helper(callee) and depth < 12 and self.policy.transparent_helpers:
+            # a function the rules were not written against (extracted helper): analysed in place
+            return True
         return self.policy.inline(callee, depth, e)
+
+    def is_unknown_helper(self, callee: FuncInfo) -> bool:
+        return _strip_at(callee.qual) not in baseline_functions() and callee.kind != "property" \
+            and not _has_yield(callee)
 
     def _inline(self, callee: FuncInfo, recv, rc, args, kwargs, e: Event, node, s: _State, fi, depth, ch):
         e.inlined = True
